@@ -37,6 +37,11 @@ func (i StaticInspector) SetWithBuffer(_, _ any, _ AccumulativeBuffer, _ ...stri
 }
 
 func (i StaticInspector) Compare(src any, cond Op, right string, result *bool, _ ...string) error {
+	if isNilPtr(src) {
+		// A typed nil pointer holds nothing to compare with.
+		*result = false
+		return nil
+	}
 	switch src.(type) {
 	case int:
 		if r, err := strconv.ParseInt(right, 0, 0); err == nil {
@@ -257,6 +262,9 @@ func (i StaticInspector) DeepEqual(l, r any) bool {
 }
 
 func (i StaticInspector) DeepEqualWithOptions(l, r any, _ *DEQOptions) bool {
+	if isNilPtr(l) || isNilPtr(r) {
+		return false
+	}
 	switch l.(type) {
 	case bool:
 		if rx, ok := i.indBool(r); ok {
@@ -394,6 +402,9 @@ func (i StaticInspector) Unmarshal(p []byte, typ Encoding) (any, error) {
 }
 
 func (i StaticInspector) Copy(x any) (dst any, err error) {
+	if isNilPtr(x) {
+		return nil, ErrUnsupportedType
+	}
 	switch x.(type) {
 	case bool:
 		dst = x.(bool)
@@ -470,6 +481,9 @@ func (i StaticInspector) Copy(x any) (dst any, err error) {
 }
 
 func (i StaticInspector) CopyTo(src, dst any, buf AccumulativeBuffer) error {
+	if isNilPtr(src) {
+		return ErrUnsupportedType
+	}
 	switch src.(type) {
 	case bool:
 		if _, ok := dst.(*bool); !ok {
@@ -644,6 +658,9 @@ func (i StaticInspector) Capacity(x any, result *int, _ ...string) error {
 }
 
 func (i StaticInspector) Reset(x any) error {
+	if isNilPtr(x) {
+		return nil
+	}
 	switch x.(type) {
 	case bool:
 		x = false
@@ -882,6 +899,9 @@ func (i StaticInspector) eqlf64(a, b float64) bool {
 }
 
 func (i StaticInspector) lc(x any) (int, int) {
+	if isNilPtr(x) {
+		return 0, 0
+	}
 	switch x.(type) {
 	case []byte:
 		p := x.([]byte)
